@@ -220,6 +220,11 @@ pub fn check_case(c: &Case) -> CheckResult {
     let counter0 = rx.counter;
 
     // fault-free run of the last action on a copy
+    // What the same handle shows after an action failed with an error (tasks, working set
+    // without trailing empty slots, number of unsynchronized operations), and whether the action
+    // was then repeated on that handle.
+    type Live = (crate::engine::model::Model, Vec<Option<taskchampion::Uuid>>, usize);
+    let live_slot: std::cell::RefCell<Option<(Live, bool)>> = std::cell::RefCell::new(None);
     let run = |dir: &Path, fault: Option<(usize, StorageFault)>| -> Result<(Option<Result<(), String>>, usize, usize, Vec<Dump>), Failure> {
         let server = ModelServer::from_state(s0.clone());
         let (mut hx, _) = server.handle(0);
@@ -233,6 +238,44 @@ pub fn check_case(c: &Case) -> CheckResult {
         let commits = x.probe.commits();
         let hist = x.probe.history();
         x.probe.disarm();
+        *live_slot.borrow_mut() = None;
+        if let (Some(Err(_)), Some(_)) = (&res, &fault) {
+            // the process lives on with the same handle: the abandoned transaction must not show
+            let tasks = x.try_tasks().map_err(|e| Failure::new("same-handle-read-failed", format!("after the failed action the same handle cannot read: {e}")))?;
+            let mut ws = x.working_set();
+            while ws.len() > 1 && ws.last() == Some(&None) {
+                ws.pop();
+            }
+            if ws.is_empty() {
+                ws.push(None);
+            }
+            let live = (tasks, ws, x.num_local());
+            // ... and the action can simply be repeated on it (commit and undo only when nothing
+            // of them had committed; sync and working-set rebuild complete whatever is missing)
+            let repeat = match c.last {
+                KAction::Sync | KAction::Rebuild(_) => true,
+                KAction::Commit(_) | KAction::Undo => commits == 0,
+            };
+            if repeat {
+                if commits == 0 {
+                    r.counter = counter0;
+                }
+                match run_action(&mut x, &mut hx, &mut r, &c.last) {
+                    Some(Ok(())) => {}
+                    other => {
+                        return Err(Failure::new(
+                            "repeat-on-same-handle-failed",
+                            format!(
+                                "fault {fault:?} made {:?} fail; repeating the action on the same handle fails too: {:?}",
+                                c.last,
+                                other.map(|r| r.map_err(|e| e.to_string()))
+                            ),
+                        ))
+                    }
+                }
+            }
+            *live_slot.borrow_mut() = Some((live, repeat));
+        }
         drop(x);
         Ok((res.map(|r| r.map_err(|e| e.to_string())), calls, commits, hist))
     };
@@ -275,6 +318,36 @@ pub fn check_case(c: &Case) -> CheckResult {
             copy_dir(&d0, &di)?;
             let (res, _, commits, _) = run(&di, Some((i, kind)))?;
             let got = fresh_dump(&di)?;
+            if let Some(((tasks, ws, nlocal), repeated)) = live_slot.borrow_mut().take() {
+                let want = &states[commits];
+                // (num_local_operations does not count undo points)
+                let want_local = want.unsynced.iter().filter(|o| !o.is_undo_point()).count();
+                crate::ensure!(
+                    tasks == want.tasks && ws == want.ws_trimmed() && nlocal == want_local,
+                    "abandoned-transaction-visible-on-same-handle",
+                    "error at storage call {i} of {:?} ({commits} transaction(s) committed): the same handle, kept open, then shows tasks {} / working set {ws:?} / {nlocal} unsynchronized operations, but the committed state is tasks {} / working set {:?} / {} operations",
+                    c.last,
+                    tasks.render(),
+                    want.tasks.render(),
+                    want.ws_trimmed(),
+                    want_local
+                );
+                rep.class("same-handle-continues-after-error");
+                if repeated {
+                    let a = states.last().unwrap();
+                    let same = got.tasks == a.tasks && got.working_set == a.working_set && got.unsynced == a.unsynced && (c.last == KAction::Sync || got.task_ops == a.task_ops);
+                    crate::ensure!(
+                        same,
+                        "repeat-on-same-handle-differs",
+                        "error at storage call {i} of {:?}, then the action repeated on the same handle: a fresh handle sees\n  {got:?}\nbut the uninterrupted action gives\n  {a:?}",
+                        c.last
+                    );
+                    rep.class("action-repeated-on-same-handle");
+                    rep.extra_evals += 1;
+                    let _ = std::fs::remove_dir_all(&di);
+                    continue;
+                }
+            }
             crate::ensure!(
                 commits < states.len(),
                 "too-many-commits",
@@ -511,8 +584,31 @@ pub fn check_kill(c: &KillCase) -> Result<KillOutcome, Failure> {
     let done = lines.iter().filter(|l| l.starts_with("DONE")).count();
     let begun = lines.iter().filter(|l| l.starts_with("BEGIN")).count();
     let finished = lines.iter().any(|l| l == "FINISHED");
-    // audit through a fresh handle
+    // audit through fresh handles.  Once a commit has returned, a read-only reopen must show
+    // what a read-write one shows (before that the database may not even be initialised, which a
+    // read-only handle cannot do).
+    let got_ro = if done >= 1 {
+        let mut s: Box<dyn Storage> = Box::new(
+            block_on(taskchampion::SqliteStorage::new(&db, taskchampion::storage::AccessMode::ReadOnly, false))
+                .map_err(|e| Failure::new("reopen-failed", format!("after SIGKILL ({done} actions had completed) the database cannot be opened read-only: {e}")))?,
+        );
+        Some(
+            dump_storage(s.as_mut(), &pool())
+                .map(|d| d.normalized())
+                .map_err(|e| Failure::new("reopen-read-failed", format!("after SIGKILL the database, opened read-only, cannot be read: {e}")))?,
+        )
+    } else {
+        None
+    };
     let got = fresh_dump(&db)?;
+    if let Some(got_ro) = got_ro {
+        if got_ro != got {
+            return Err(Failure::new(
+                "kill-read-only-reopen-differs",
+                format!("after SIGKILL a read-only reopen sees\n  {got_ro:?}\nbut a read-write reopen right after it sees\n  {got:?}"),
+            ));
+        }
+    }
     let lo = idx_done[done];
     let hi = if done + 1 < idx_done.len() { idx_done[done + 1] } else { *idx_done.last().unwrap() };
     let pos = (lo..=hi).find(|i| states[*i] == got);
